@@ -386,6 +386,63 @@ enum Chunk {
     Template(usize),
     /// cyclic typing evidence of every period up to 60, driven directly on the unifier
     Rings,
+    /// chains in which one opcode is fed its own result again and again
+    Chains,
+}
+
+/// Value-producing opcodes with the number of operands they take.
+const CHAIN_OPCODES: [(u8, usize); 48] = [
+    (0x01, 2), (0x02, 2), (0x03, 2), (0x04, 2), (0x05, 2), (0x06, 2), (0x07, 2), (0x08, 3), (0x09, 3), (0x0a, 2), (0x0b, 2),
+    (0x10, 2), (0x11, 2), (0x12, 2), (0x13, 2), (0x14, 2), (0x15, 1), (0x16, 2), (0x17, 2), (0x18, 2), (0x19, 1), (0x1a, 2),
+    (0x1b, 2), (0x1c, 2), (0x1d, 2), (0x20, 2), (0x31, 1), (0x35, 1), (0x3b, 1), (0x3f, 1), (0x40, 1), (0x51, 1), (0x54, 1),
+    (0xf0, 3), (0xf5, 4), (0xf1, 7), (0xf2, 7), (0xf4, 6), (0xfa, 6),
+    // the same call family again with the result fed to every operand (listed twice on purpose: see `chain_programs`)
+    (0xf0, 3), (0xf5, 4), (0xf1, 7), (0xf2, 7), (0xf4, 6), (0xfa, 6), (0x20, 2), (0x08, 3), (0x09, 3),
+];
+
+/// `CALLVALUE (feed op){n} STOP` where `feed` duplicates the running value into the chosen operand positions (the others
+/// are PUSH0): one program per opcode and per non-empty choice "all positions" or "one position".
+fn chain_programs(n: usize) -> Vec<(String, Vec<u8>)> {
+    let mut v = Vec::new();
+    let mut seen = std::collections::BTreeSet::new();
+    for (opc, arity) in CHAIN_OPCODES {
+        let mut choices: Vec<Vec<bool>> = vec![vec![true; arity]];
+        for p in 0..arity {
+            choices.push((0..arity).map(|i| i == p).collect());
+        }
+        if arity >= 2 {
+            // the running value in two positions is what doubles the size of the result at every step
+            for p in 0..arity {
+                for q in p + 1..arity {
+                    choices.push((0..arity).map(|i| i == p || i == q).collect());
+                }
+            }
+        }
+        for ch in choices {
+            if !seen.insert((opc, ch.clone())) {
+                continue;
+            }
+            // stack before a step: [x]; operands are pushed deepest first (operand arity-1 first), x stays at the bottom
+            // and is removed after the opcode with SWAP1 POP
+            let mut code = vec![0x34u8];
+            for _ in 0..n {
+                for i in (0..arity).rev() {
+                    let pushed = arity - 1 - i; // items above x so far
+                    if ch[i] {
+                        code.push(0x80 + pushed as u8); // DUP(pushed+1) reaches x
+                    } else {
+                        code.push(0x5f);
+                    }
+                }
+                code.push(opc);
+                code.extend([0x90, 0x50]); // SWAP1 POP: drop the old x, keep the result
+            }
+            code.push(0x00);
+            let which: String = ch.iter().map(|b| if *b { 'x' } else { '0' }).collect();
+            v.push((format!("0x{opc:02x} fed its own result at [{which}] {n} times"), code));
+        }
+    }
+    v
 }
 
 fn plan(tier: Tier) -> Vec<Chunk> {
@@ -408,10 +465,23 @@ fn plan(tier: Tier) -> Vec<Chunk> {
         v.push(Chunk::Template(t));
     }
     v.push(Chunk::Rings);
+    v.push(Chunk::Chains);
     v
 }
 
 const TC_BUDGET: u64 = 20_000;
+
+/// Bytes the subject asks the allocator for during one whole analysis of `code` (None: it did not halt).
+fn work_of(code: &[u8]) -> Result<u64, Verdict> {
+    let before = crate::alloc_count::bytes();
+    let r = check_halts(code, &sle::vm::Config::default().with_permissive_errors(true), &Vec::new(), TC_BUDGET);
+    let used = crate::alloc_count::bytes() - before;
+    r.map(|_| used)
+}
+
+fn work_multiplies(longer: u64, shorter: u64) -> bool {
+    longer > 8 * shorter + (2 << 20)
+}
 
 pub struct C03;
 
@@ -474,6 +544,42 @@ impl Check for C03 {
                     }
                     true
                 });
+            }
+            Chunk::Chains => {
+                // the work of one analysis (bytes the subject asks the allocator for, which does not depend on the machine's
+                // load) must not multiply when the chain gets six steps longer; a longer chain is only run when the shorter
+                // one passed, so a subject whose values double at every step is stopped while they are still small
+                let lengths: &[usize] = if tier.thorough() { &[6, 12, 18, 24, 48, 96] } else { &[6, 12, 18, 24] };
+                let base: Vec<(String, Vec<u8>)> = chain_programs(lengths[0]);
+                for (i, (desc0, _)) in base.iter().enumerate() {
+                    let mut prev: Option<(u64, Vec<u8>)> = None;
+                    for n in lengths {
+                        let (desc, code) = chain_programs(*n).swap_remove(i);
+                        let shorter = prev.as_ref().map(|(_, c)| hex(c));
+                        ctx.case(|| json!({"bytes": hex(&code), "plan": [], "shorter": shorter}));
+                        ctx.count("pipeline_runs", 1);
+                        ctx.count("chain_programs", 1);
+                        match work_of(&code) {
+                            Err(v) => {
+                                ctx.violation(v.key, format!("{} [{desc}]", v.what), json!({"bytes": hex(&code), "plan": []}));
+                                break;
+                            }
+                            Ok(used) => {
+                                if let Some((p, _)) = &prev {
+                                    if work_multiplies(used, *p) {
+                                        ctx.violation(
+                                            "work-multiplies-with-length".to_string(),
+                                            format!("the analysis asked for {used} bytes of memory in all where the same chain six steps shorter asked for {p} [{desc}; first: {desc0}]"),
+                                            json!({"bytes": hex(&code), "plan": [], "shorter": shorter}),
+                                        );
+                                        break;
+                                    }
+                                }
+                                prev = Some((used, code));
+                            }
+                        }
+                    }
+                }
             }
             Chunk::Rings => {
                 for (n, set, desc) in crate::c14::ring_sets() {
@@ -597,7 +703,7 @@ impl Check for C03 {
              and 3 settings beyond. The VM is driven directly: finishes within an analytic step budget, per-state visit counts <= \
              iteration limit, per-target fork counts <= fork limit, states <= 1 + forks x jumpdests, cumulative minimum gas <= limit + \
              one instruction. (b) all stack-safe read-mask-write sequences <= {} over 10 tokens{}: analyze() must finish within {} \
-             polls under the canonical order and under every single deviation at the unification / storage-export order points; (c) 280 programs whose slot types refer to themselves or to each other: analyze() must finish (rendering a recursive type must stop); (d) 16 pipeline templates (mask / shift / divide / multiply packing, hashing, exp / sar / signextend / byte) with boundary constants (0, 1, 2^k, 2^k+-1, 2^255+1, 2^256-1, ...) in their two holes: analyze() must finish; (e) the ring family of C14 (cyclic typing evidence of every period up to 60) driven on the unifier: it must finish within its poll budget. \
+             polls under the canonical order and under every single deviation at the unification / storage-export order points; (c) 280 programs whose slot types refer to themselves or to each other: analyze() must finish (rendering a recursive type must stop); (d) 16 pipeline templates (mask / shift / divide / multiply packing, hashing, exp / sar / signextend / byte) with boundary constants (0, 1, 2^k, 2^k+-1, 2^255+1, 2^256-1, ...) in their two holes: analyze() must finish; (e) the ring family of C14 (cyclic typing evidence of every period up to 60) driven on the unifier: it must finish within its poll budget; (f) self-feeding chains: every value-producing opcode (39, including SHA3, the CREATE and CALL families) fed its own result in all, each one and each two of its operand positions 6, 12, 18, 24 times in a row (thorough: 48 and 96 too): analyze() must finish, and the bytes it asks the allocator for must not multiply (more than 8x + 2 MiB) when the chain gets six steps longer — a longer chain runs only after the shorter one passed. \
              non-trivial = (program, limits) where some limit actually fired, or a cyclic-family program; distinct by content",
             if tier.thorough() { 7 } else { 6 },
             if tier.thorough() { 5 } else { 4 },
@@ -617,6 +723,7 @@ impl Check for C03 {
         vec![
             "whether a limit is enforced one step early, thread order and thread count below the bound are don't-cares".into(),
             "limits above 3 (the quantifier's 12 / 60) are not crossed with the program space; scale effects are out of reach".into(),
+            "the work of one analysis is measured as bytes requested from the harness's counting allocator on the analysing thread, which does not depend on the machine's load".into(),
             "halting is decided by a poll-every-iteration counting watchdog used as a step budget; loops that never poll are caught by the supervisor's wall-clock stall detection".into(),
         ]
     }
@@ -632,6 +739,20 @@ impl Check for C03 {
         }
         let code = unhex(c["bytes"].as_str().unwrap());
         println!("code: {}", hex(&code));
+        if let Some(sh) = c.get("shorter").and_then(|s| s.as_str()) {
+            let short = unhex(sh);
+            println!("the same chain six steps shorter: {}", hex(&short));
+            return match (work_of(&short), work_of(&code)) {
+                (Ok(a), Ok(b)) => {
+                    println!("observed: {a} bytes asked for by the shorter chain, {b} by the longer");
+                    work_multiplies(b, a)
+                }
+                (Err(v), _) | (_, Err(v)) => {
+                    println!("observed: {}: {}", v.key, v.what);
+                    true
+                }
+            };
+        }
         if c.get("iterations").is_some() {
             let lim = Limits3 {
                 iterations: c["iterations"].as_u64().unwrap() as usize,
